@@ -63,6 +63,8 @@ class Config:
     nbr_vsl: bool = False  # neighbour links are LinkWithVsl
     history: tuple = ()  # earlier Network.step calls on the same objects: ((flags, engine_arg), ...)
     vsl_empty: bool = False  # LinkWithVsl without any sign installed (segments_with_vsl = {})
+    selfloop: bool = False  # the link leaves and enters the same node (a one-link ring); then
+    #                         In(U) = Out(U) = {SELF} and the roles UIN / DOUT are SELF itself
 
     def label(self) -> str:
         o = self.u_origin or "-"
@@ -70,7 +72,7 @@ class Config:
             o += f"({self.u_otype})"
         return (
             f"{self.link_cls}{'[N=1]' if self.n1 else ('[N=4,vsl=' + ('none' if self.vsl_empty else '1,3') + ']' if self.link_cls == 'LinkWithVsl' else '[N>=2]')} "
-            f"U(in={self.u_in},origin={o},out={self.u_out}) "
+            f"{'SELF-LOOP ' if self.selfloop else ''}U(in={self.u_in},origin={o},out={self.u_out}) "
             f"D(in={self.d_in},dest={self.d_dest or '-'},out={self.d_out})"
             f"{' delta' if self.delta else ''}{' phi' if self.phi else ''}"
             f"{' flags=' + ','.join(sorted(f.replace('positive_', '') for f in self.flags)) if self.flags else ''}"
@@ -168,6 +170,16 @@ def enumerate_configs(tier: str, impls=("casadi", "numpy"), flags_mode="none"):
             cfgs.append(replace(b, impl=impl, init="partial"))
             if impl == "numpy":
                 cfgs.append(replace(b, impl=impl, init="user0"))
+    # one-link rings (valid: a node with one entering and one leaving link, optionally a ramp)
+    for impl in impls:
+        for (uo, ut) in ((None, None), ("MeteredOnRamp", "out"), ("MeteredOnRamp", "in"),
+                         ("SimplifiedMeteredOnRamp", "limited"), ("SimplifiedMeteredOnRamp", "unlimited")):
+            for n1 in (False, True):
+                for lc in ("Link", "LinkWithVsl"):
+                    if lc == "LinkWithVsl" and (n1 or uo == "MeteredOnRamp"):
+                        continue
+                    cfgs.append(Config(link_cls=lc, n1=n1, u_in=1, u_origin=uo, u_otype=ut, u_out=1, d_out=1, d_in=1,
+                                       delta=True, phi=True, impl=impl, selfloop=True))
     if tier == "thorough":
         extra = []
         for c in cfgs:
@@ -276,8 +288,19 @@ class World:
         self.SELF = self._link("SELF", LINKVSL if cfg.link_cls == "LinkWithVsl" else LINK, cfg.n1)
         self.links = [self.SELF]
         X = Obj(NODE, "X", kind="node")  # far end of neighbour links
+        if cfg.selfloop:
+            if (cfg.u_in, cfg.u_out, cfg.d_out, cfg.d_in, cfg.d_dest) != (1, 1, 1, 1, None):
+                raise AnalysisError("a self-loop configuration has In(U) = Out(U) = {SELF}")
+            self.D = self.U
+            loop = [(self.U, self.U, self.SELF)]
+            self.u_in = Coll("In", self.U, 1, loop, "In(U)")
+            self.u_out = Coll("Out", self.U, 1, list(loop), "Out(U)")
+            self.d_out = Coll("Out", self.U, 1, list(loop), "Out(U)")
+            self.d_in = Coll("In", self.U, 1, list(loop), "In(U)")
         # entering links of U
-        if cfg.u_in == 0:
+        if cfg.selfloop:
+            pass
+        elif cfg.u_in == 0:
             self.u_in = Coll("In", self.U, 0, [], "In(U)")
         elif cfg.u_in == 1:
             l = self._link("UIN", nbr)
@@ -288,14 +311,18 @@ class World:
             self.links.append(l)
             self.u_in = Coll("In", self.U, "many", [(X, self.U, l)], "In(U)")
         # leaving links of U (SELF is one of them)
-        if cfg.u_out == 1:
+        if cfg.selfloop:
+            pass
+        elif cfg.u_out == 1:
             self.u_out = Coll("Out", self.U, 1, [(self.U, self.D, self.SELF)], "Out(U)")
         else:
             l = self._link("UOUT*", nbr)
             self.links.append(l)
             self.u_out = Coll("Out", self.U, "many", [(self.U, X, l)], "Out(U)")
         # leaving links of D
-        if cfg.d_out == 0:
+        if cfg.selfloop:
+            pass
+        elif cfg.d_out == 0:
             self.d_out = Coll("Out", self.D, 0, [], "Out(D)")
         elif cfg.d_out == 1:
             l = self._link("DOUT", nbr)
@@ -306,7 +333,9 @@ class World:
             self.links.append(l)
             self.d_out = Coll("Out", self.D, "many", [(self.D, X, l)], "Out(D)")
         # entering links of D: SELF (+ possibly others; only the destination asks)
-        if cfg.d_in == 1:
+        if cfg.selfloop:
+            pass
+        elif cfg.d_in == 1:
             self.d_in = Coll("In", self.D, 1, [(self.U, self.D, self.SELF)], "In(D)")
         else:
             l = self._link("DIN*", nbr)
@@ -779,10 +808,16 @@ def run_config(prog: Program, cfg: Config, decisions=(), entry="network") -> Res
     n_prims_before = 0
     try:
         step = prog.function("sym_metanet.network", "Network.step")
-        for hflags, hengine in cfg.history:
+        for hent in cfg.history:
+            hflags, hengine = hent[0], hent[1]
             kwargs = {f: (f in hflags) for f in FLAGS}
             kwargs.update(w.other)
             kwargs["init_conditions"] = w.init_conditions
+            if len(hent) > 2 and hent[2] == "rank1":
+                # the same values given as 1-element arrays instead of numpy scalars
+                kwargs["init_conditions"] = {
+                    el: {k: (TV(v.t, 1, v.fresh, v.origin) if isinstance(v, TV) and v.rank == 0 else v)
+                         for k, v in d.items()} for el, d in w.init_conditions.items()}
             kwargs["engine"] = w.EXPL if hengine == "explicit" else None
             it.call_function(FuncV(step, w.net, defcls=NET), [], kwargs)
             w.memo_start, w.final_start = len(w.assumptions), len(w.trace)
